@@ -436,8 +436,13 @@ impl Package {
         if let (Ok(payload_digest_val), Ok(payload_digest_algo)) =
             (payload_digest_val, payload_digest_algo)
         {
-            let payload_digest_algo = DigestAlgorithm::from_u32(payload_digest_algo)
-                .expect("Completely unknown payload digest algorithm");
+            let payload_digest_algo =
+                DigestAlgorithm::from_u32(payload_digest_algo).ok_or_else(|| {
+                    Error::InvalidTagValueEnumVariant {
+                        tag: IndexTag::RPMTAG_PAYLOADDIGESTALGO.to_string(),
+                        variant: payload_digest_algo,
+                    }
+                })?;
 
             // @todo: UnsupportedDigestAlgorithm is awkward, if a number is outside the range of the expected
             // variants to begin with, we can't even return it, as it carries a DigestAlgorithm. But also, in
@@ -453,7 +458,15 @@ impl Package {
                 hasher.update(self.content.as_slice());
                 hex::encode(hasher.finalize())
             };
-            if payload_digest != payload_digest_val[0] {
+            let payload_digest_declared =
+                payload_digest_val
+                    .first()
+                    .ok_or_else(|| Error::InvalidTagIndex {
+                        tag: IndexTag::RPMTAG_PAYLOADDIGEST.to_string(),
+                        index: 0,
+                        bound: 0,
+                    })?;
+            if &payload_digest != payload_digest_declared {
                 return Err(Error::DigestMismatchError);
             }
         }
